@@ -15,7 +15,8 @@ import plan as P
 REPO = os.environ.get('VERIF_REPO', '/repo')
 WORK = os.path.join(ROOT, '.work')
 REPLAYS = os.path.join(ROOT, 'replays')
-EVID = os.path.join(ROOT, 'evidence')
+# runs against a scratch copy (VERIF_REPO) never touch the evidence that gets committed
+EVID = os.path.join(ROOT, 'evidence') if os.path.abspath(REPO) == '/repo' else os.path.join(WORK, 'evidence-scratch')
 
 def log(*a):
     print(*a, flush=True)
